@@ -10,6 +10,7 @@ import (
 	"strings"
 	"sync"
 	"testing"
+	"time"
 
 	"github.com/dominant-strategies/go-quai/common"
 	"github.com/dominant-strategies/go-quai/core"
@@ -125,17 +126,37 @@ func (c *seqCase) settle(what string) *core.VerifPoolSnapshot {
 	if herr != nil {
 		c.t.Fatalf("HARNESS: %v", herr)
 	}
-	// the nonce tracker as of the snapshot: the noncer's cached value, else its fallback (the state)
-	var nonces [nAccts]uint64
-	for i := 0; i < nAccts; i++ {
-		if n, ok := snap.PendingNonces[c.e.u.addrs[i]]; ok {
-			nonces[i] = n
-		} else {
-			nonces[i] = at.st[i].Nonce
-		}
-	}
 	c.pre, c.at = snap, at
-	fs := checkSnapshot(c.e.u, snap, at, func(a common.InternalAddress) uint64 { return nonces[c.e.u.idx[a]] })
+	c.judge(snap, at, true, "after "+what)
+	return snap
+}
+
+// glance takes a snapshot right now, without waiting for any reorg run (the pool lock makes it
+// atomic), and evaluates the invariants every critical section of the pool maintains.
+func (c *seqCase) glance(what string) {
+	c.t.Helper()
+	var snap *core.VerifPoolSnapshot
+	var at *block
+	cr := c.e.call(func() {
+		snap = c.e.pool.VerifSnapshot()
+		c.e.chain.mu.RLock()
+		at = c.e.chain.byGas[snap.CurrentMaxGas]
+		c.e.chain.mu.RUnlock()
+	})
+	c.checkCall(cr, "snapshot "+what)
+	if at == nil {
+		c.t.Fatalf("HARNESS: pool reports gas limit %d which is no block of this case", snap.CurrentMaxGas)
+	}
+	save, saveAt := c.pre, c.at
+	c.pre, c.at = snap, at // for the dump
+	c.judge(snap, at, false, what+", before any reorg run")
+	c.pre, c.at = save, saveAt
+}
+
+// judge evaluates a snapshot and reports what it finds; it applies the known-finding protocol.
+func (c *seqCase) judge(snap *core.VerifPoolSnapshot, at *block, quiescent bool, what string) {
+	c.t.Helper()
+	fs := checkSnapshot(c.e.u, snap, at, quiescent)
 	// a hole at a nonce that had already been mined on an earlier head is the reorg re-injection
 	// finding; any other hole keeps the generic fingerprint
 	for i := range fs {
@@ -163,13 +184,12 @@ func (c *seqCase) settle(what string) *core.VerifPoolSnapshot {
 		for _, f := range live[1:] {
 			rest = append(rest, f.FP)
 		}
-		msg := live[0].Msg + " (after " + what + ")"
+		msg := live[0].Msg + " (" + what + ")"
 		if len(rest) > 0 {
 			msg += fmt.Sprintf("; also: %v", rest)
 		}
 		c.violation(live[0].FP, msg)
 	}
-	return snap
 }
 
 func errClass(err error) string {
@@ -203,6 +223,7 @@ func (c *seqCase) step(o op) {
 	c.steps = append(c.steps, sl)
 	c.sig = append(c.sig, o.String())
 	c.checkCall(r.cr, o.String())
+	c.glance("right after " + o.String())
 	post := c.settle(o.String())
 	cfg := pre.Config
 	u := c.e.u
@@ -781,11 +802,48 @@ func TestC19_Concurrent(t *testing.T) {
 				}
 			}(w)
 		}
+		// a reader that keeps taking locked snapshots while the workers run (what the block producer
+		// or an RPC client could observe at any lock boundary)
+		type shot struct {
+			s  *core.VerifPoolSnapshot
+			at *block
+		}
+		var shots []shot
+		var shotCR *callResult
+		stop := make(chan struct{})
+		var swg sync.WaitGroup
+		swg.Add(1)
+		go func() {
+			defer swg.Done()
+			<-start
+			for len(shots) < 24 {
+				select {
+				case <-stop:
+					return
+				default:
+				}
+				var sh shot
+				cr := e.call(func() {
+					sh.s = e.pool.VerifSnapshot()
+					e.chain.mu.RLock()
+					sh.at = e.chain.byGas[sh.s.CurrentMaxGas]
+					e.chain.mu.RUnlock()
+				})
+				if cr.panicVal != nil || cr.hang {
+					shotCR = &cr
+					return
+				}
+				shots = append(shots, sh)
+				time.Sleep(time.Duration(200+100*len(shots)) * time.Microsecond)
+			}
+		}()
 		close(start)
 		wg.Wait()
+		close(stop)
+		swg.Wait()
 		runtime.GOMAXPROCS(old)
 
-		c := &seqCase{t: rt, part: part, e: e, labels: labels}
+		c := &seqCase{t: rt, part: part, e: e, labels: labels, asyncRemoved: map[common.Hash]bool{}}
 		for w := range results {
 			c.steps = append(c.steps, stepLog{Op: fmt.Sprintf("worker %d: %s", w, strings.Join(results[w].ops, " ; ")), Outcome: results[w].errs})
 		}
@@ -803,6 +861,20 @@ func TestC19_Concurrent(t *testing.T) {
 				c.checkCall(*results[w].cr, fmt.Sprintf("worker %d: %s", w, results[w].what))
 			}
 		}
+		if shotCR != nil {
+			c.checkCall(*shotCR, "snapshot while the workers were running")
+		}
+		for i, sh := range shots {
+			if sh.at == nil {
+				rt.Fatalf("HARNESS: pool reports gas limit %d which is no block of this case", sh.s.CurrentMaxGas)
+			}
+			c.pre, c.at = sh.s, sh.at
+			c.judge(sh.s, sh.at, false, fmt.Sprintf("snapshot %d taken while the workers were running", i))
+		}
+		if len(shots) > 0 {
+			labels["midflight_snapshots"] = true
+		}
+		c.glance("all workers finished")
 		c.settle("all workers finished")
 		// race reports written while this case ran
 		for _, rep := range races.newReports() {
